@@ -1,6 +1,10 @@
 import PercevalModel.Proto
 import PercevalModel.Model.C15
 import PercevalModel.Model.C15FF
+import PercevalModel.Model.C15Text
+import PercevalModel.Model.C15PS
+import PercevalModel.Model.C15Tree
+import PercevalModel.Model.C15F32
 
 /-!
   Line protocol for C15 (model: `Model/C15.lean`).  Every request carries
@@ -23,8 +27,481 @@ import PercevalModel.Model.C15FF
                  → {raised:[index of every call that raises; it is skipped], state:{max,blocked,map:[[key,id,size]]},
                     good, enc:{name,offset,block,default,configs}, dec|null, dec_flag_first|null}
                  `FFCircuitProvider` bookkeeping (`Model/C15FF.lean`); payloads are (id, mode count)
+  text formats (`Model/C15Text.lean`); a state is `[{"g": [[count, [[tag, value], …]], …], "p": plain}, …]`, a number
+  the exact rational of the double as "num/den":
+  * `txt` {kind: "state"|"num"|"bsd"|"bsc"|"bss"|"sv"|"svd", obj} → {wf, text, dec|null}   writer, and reader on that text
+      obj: state | "num/den" | [[state, "num/den"], …] | [[state, n], …] | [state, …] | [[re, im, state], …] |
+           [[[[re, im, state], …], "num/den"], …]
+  * `dectxt` {kind, text} → {dec|null}                                                       reader on an arbitrary text
   A request the driver cannot parse is answered `{"err": …}`.
 -/
+
+
+/-! ## sub-drivers (post-selection text, containers, feed-forward tables / 32-bit floats) -/
+
+/-!
+  Line protocol for the PostSelect text format (model: `Model/C15PS.lean`).
+
+  Expr JSON: `{"k":"cond","modes":[..],"c":"==","n":1}`, `{"k":"not","x":…}`,
+             `{"k":"nary","op":"&","args":[…]}`; `null` = the empty PostSelect.
+  ops
+  * `ps`      {obj: expr|null, fixed: bool} → {text, dec: expr|null, ok, wf, nlf}
+              `text = printTop fixed obj`, `dec/ok = parseTop text` (`ok=false`: the reader rejects),
+              `wf` = `Expr.WF`, `nlf` = `Expr.NotLastFree` (both `true` for `null`)
+  * `psparse` {text} → {ok, dec: expr|null, print_found, print_fixed}
+              `parseTop text` and the two writers applied to the result (`null` when rejected)
+  * `pseval`  {obj: expr|null, states: [[n…]…]} → {vals: [bool…]}     `evalTop`
+  A request the driver cannot parse is answered `{"err": …}`.
+-/
+
+section
+open Lean PM.Proto PM.C15.PS
+
+namespace C15PSD
+
+/-- `Expr` alone is ambiguous with `Lean.Expr` once `Lean` is open -/
+abbrev PExpr := PM.C15.PS.Expr
+
+def txt (s : String) : Text := s.toList
+def str (t : Text) : String := String.ofList t
+
+def cmpOf : String → Except String Cmp
+  | "==" => pure .eq | "!=" => pure .ne | "<" => pure .lt | "<=" => pure .le
+  | ">" => pure .gt | ">=" => pure .ge
+  | s => throw s!"bad comparator {s}"
+
+def bopOf : String → Except String BOp
+  | "&" => pure .and | "|" => pure .or | "^" => pure .xor
+  | s => throw s!"bad operator {s}"
+
+partial def exprOf (j : Json) : Except String PExpr := do
+  match ← strOf j "k" with
+  | "cond" => pure (.cond (← natList (← j.getObjVal? "modes")) (← cmpOf (← strOf j "c")) (← natOf j "n"))
+  | "not" => pure (.not (← exprOf (← j.getObjVal? "x")))
+  | "nary" =>
+    let args ← (← arrOf j "args").toList.mapM exprOf
+    pure (.nary (← bopOf (← strOf j "op")) (Args.ofList args))
+  | k => throw s!"bad expression kind {k}"
+
+def optExprOf (j : Json) : Except String (Option PExpr) :=
+  if j.isNull then pure none else some <$> exprOf j
+
+mutual
+  partial def exprJ : PExpr → Json
+    | .cond ms c n =>
+      Json.mkObj [("k", "cond"), ("modes", Json.arr (ms.map (fun (m : Nat) => (m : Json))).toArray),
+        ("c", str c.sym), ("n", n)]
+    | .not x => Json.mkObj [("k", "not"), ("x", exprJ x)]
+    | .nary o as => Json.mkObj [("k", "nary"), ("op", str [o.sym]), ("args", Json.arr (argsJ as).toArray)]
+  partial def argsJ : Args → List Json
+    | .nil => []
+    | .cons x r => exprJ x :: argsJ r
+end
+
+def optExprJ : Option PExpr → Json
+  | none => Json.null
+  | some x => exprJ x
+
+def handle (j : Json) : Except String Json := do
+  let op ← strOf j "op"
+  match op with
+  | "ps" =>
+    let x ← optExprOf (← j.getObjVal? "obj")
+    let fixed ← boolOf j "fixed"
+    let t := printTop fixed x
+    let r := parseTop t
+    let wf := match x with | none => true | some e => e.wfb
+    let nlf := match x with | none => true | some e => e.nlfb
+    pure (Json.mkObj [("text", str t), ("ok", r.isSome), ("dec", optExprJ (r.getD none)), ("wf", wf), ("nlf", nlf)])
+  | "psparse" =>
+    let t := txt (← strOf j "text")
+    match parseTop t with
+    | none => pure (Json.mkObj [("ok", false), ("dec", Json.null), ("print_found", Json.null), ("print_fixed", Json.null)])
+    | some x =>
+      pure (Json.mkObj [("ok", true), ("dec", optExprJ x), ("print_found", str (printTop false x)),
+        ("print_fixed", str (printTop true x))])
+  | "pseval" =>
+    let x ← optExprOf (← j.getObjVal? "obj")
+    let sts ← (← arrOf j "states").toList.mapM natList
+    pure (Json.mkObj [("vals", Json.arr (sts.map (fun st => (evalTop x st : Json))).toArray)])
+  | _ => throw s!"unknown op {op}"
+
+def handleJ (j : Json) : Json :=
+  match handle j with
+  | .ok r => r
+  | .error e => errJson e
+
+end C15PSD
+end
+
+/-!
+  Line protocol for the container part of C15 (model: `Model/C15Tree.lean`).  Leaves cross as integer ids; their
+  texts (what the real `serialize(leaf, compress=c)` returned) come in a table, so the leaf codec of the model is
+  the table and its inverse.
+
+  syntax
+  * tree : `{"obj": id}` | `{"raw": R}` | `{"list": [tree…]}` | `{"dict": [[key, tree]…]}`,  key : `{"obj": id}` | `{"str": "…"}`
+  * wire : `{"raw": R}` | `{"list": [wire…]}` | `{"dict": [["key text", wire]…]}`   (items in dict order)
+  * R    : `null` | `true`/`false` | a JSON integer (Python `int`) | `{"num": "p/q"}` (Python `float`, exact) | a JSON string
+
+  ops
+  * `tree`    {tree, leaves: {"<id>": {"text": "…"}}} → {wire, dec: tree|null, wf, codec_ok, rt}
+        `wire` = `encode`, `dec` = `decode` of that wire with the inverse table (first id whose text matches),
+        `wf` = `Tree.WF`, `codec_ok` = the table satisfies `LeafCodec` (texts pairwise distinct, all start with
+        `":PCVL:"`), `rt` = `dec` is the tree itself (what `roundtrip_tree` promises when `wf` and `codec_ok`)
+  * `treedec` {wire, leaves: {"<text>": id}} → {dec: tree|null}
+        `decode` with the table as `dec` (a prefixed text that is not in the table = the reader raises)
+  A request the driver cannot parse is answered `{"err": …}`.
+-/
+
+section
+open Lean PM.Proto PM.C15 PM.C15.Tree
+
+namespace C15TreeD
+
+abbrev T := PM.C15.Tree.Tree Nat
+
+def txt (s : String) : Text := s.toList
+def str (t : Text) : String := String.ofList t
+
+def listJ (f : α → Json) (l : List α) : Json := Json.arr (l.map f).toArray
+
+def rawOf (j : Json) : Except String Raw :=
+  match j with
+  | .null => pure .null
+  | .bool b => pure (.bool b)
+  | .str s => pure (.str (txt s))
+  | .num n =>
+    if n.exponent = 0 then pure (.int n.mantissa)
+    else throw "non-integer json number (a float is sent as {\"num\": \"p/q\"})"
+  | .obj _ => do
+    match ← j.getObjVal? "num" with
+    | .str s => pure (.num (← parseRat s))
+    | _ => throw "bad float"
+  | _ => throw "bad raw value"
+
+def rawJ : Raw → Json
+  | .null => Json.null
+  | .bool b => b
+  | .int i => Json.num (JsonNumber.fromInt i)
+  | .num q => Json.mkObj [("num", ratToJson q)]
+  | .str s => str s
+
+def keyOf (j : Json) : Except String (Key Nat) := do
+  if let .ok i := j.getObjVal? "obj" then return .obj (← i.getNat?)
+  if let .ok s := j.getObjVal? "str" then return .str (txt (← s.getStr?))
+  throw "bad key"
+
+def keyJ : Key Nat → Json
+  | .obj a => Json.mkObj [("obj", a)]
+  | .str s => Json.mkObj [("str", str s)]
+
+partial def treeOf (j : Json) : Except String T := do
+  if let .ok i := j.getObjVal? "obj" then return .obj (← i.getNat?)
+  if let .ok r := j.getObjVal? "raw" then return .raw (← rawOf r)
+  if let .ok l := j.getObjVal? "list" then return .list (← (← l.getArr?).toList.mapM treeOf)
+  if let .ok d := j.getObjVal? "dict" then
+    let kvs ← (← d.getArr?).toList.mapM fun p => match p with
+      | .arr #[k, v] => do pure (← keyOf k, ← treeOf v)
+      | _ => throw "bad dict item"
+    return .dict kvs
+  throw "bad tree"
+
+partial def treeJ : T → Json
+  | .obj a => Json.mkObj [("obj", a)]
+  | .raw r => Json.mkObj [("raw", rawJ r)]
+  | .list l => Json.mkObj [("list", listJ treeJ l)]
+  | .dict kvs => Json.mkObj [("dict", listJ (fun p => Json.arr #[keyJ p.1, treeJ p.2]) kvs)]
+
+partial def wireOf (j : Json) : Except String Wire := do
+  if let .ok r := j.getObjVal? "raw" then return .raw (← rawOf r)
+  if let .ok l := j.getObjVal? "list" then return .list (← (← l.getArr?).toList.mapM wireOf)
+  if let .ok d := j.getObjVal? "dict" then
+    let kvs ← (← d.getArr?).toList.mapM fun p => match p with
+      | .arr #[.str k, v] => do pure (txt k, ← wireOf v)
+      | _ => throw "bad wire dict item"
+    return .dict kvs
+  throw "bad wire"
+
+partial def wireJ : Wire → Json
+  | .raw r => Json.mkObj [("raw", rawJ r)]
+  | .list l => Json.mkObj [("list", listJ wireJ l)]
+  | .dict kvs => Json.mkObj [("dict", listJ (fun p => Json.arr #[(str p.1 : Json), wireJ p.2]) kvs)]
+
+/-- every leaf id the tree mentions -/
+partial def ids : T → List Nat
+  | .obj a => [a]
+  | .raw _ => []
+  | .list l => l.flatMap ids
+  | .dict kvs => kvs.flatMap fun p => (match p.1 with | .obj a => [a] | .str _ => []) ++ ids p.2
+
+/-- `{"<id>": {"text": …}}` -/
+def encTable (j : Json) : Except String (List (Nat × Text)) := do
+  let o ← j.getObj?
+  o.toList.mapM fun (k, v) => do
+    match k.toNat? with
+    | some i => pure (i, txt (← strOf v "text"))
+    | none => throw s!"bad leaf id {k}"
+
+/-- `{"<text>": id}` -/
+def decTable (j : Json) : Except String (List (Text × Nat)) := do
+  let o ← j.getObj?
+  o.toList.mapM fun (k, v) => do pure (txt k, ← v.getNat?)
+
+def optJ (f : α → Json) : Option α → Json
+  | none => Json.null
+  | some a => f a
+
+def handle (j : Json) : Except String Json := do
+  let op ← strOf j "op"
+  match op with
+  | "tree" =>
+    let t ← treeOf (← j.getObjVal? "tree")
+    let tbl ← encTable (← j.getObjVal? "leaves")
+    for i in ids t do
+      if (tbl.lookup i).isNone then throw s!"leaf {i} has no text"
+    let enc : Unit → Nat → Text := fun _ i => (tbl.lookup i).getD []
+    let dec : Text → Option Nat := fun s => (tbl.find? (·.2 == s)).map (·.1)
+    let w := encode enc () t
+    let d := decode dec w
+    let codecOk := nodupb (tbl.map (·.2)) && tbl.all (fun p => isPcvl p.2)
+    let rt := match d with
+      | some t' => (treeJ t').compress == (treeJ t).compress
+      | none => false
+    pure (Json.mkObj [("wire", wireJ w), ("dec", optJ treeJ d), ("wf", t.wfb), ("codec_ok", codecOk), ("rt", rt)])
+  | "treedec" =>
+    let w ← wireOf (← j.getObjVal? "wire")
+    let tbl ← decTable (← j.getObjVal? "leaves")
+    let dec : Text → Option Nat := fun s => tbl.lookup s
+    pure (Json.mkObj [("dec", optJ treeJ (decode dec w))])
+  | _ => throw s!"unknown op {op}"
+
+def handleJ (j : Json) : Json :=
+  match handle j with
+  | .ok r => r
+  | .error e => errJson e
+
+end C15TreeD
+end
+
+/-!
+  Line protocol for the feed-forward extension of C15 (models: `Model/C15FF.lean` namespaces `FF` and `FFC`,
+  `Model/C15F32.lean`).  Stand-alone; to be merged into `Driver/C15.lean` (`C15FFVD.handle` is total:
+  `Except String Json`).
+
+  ops
+  * `f32`   {v:"num/den"}            → {f32:"num/den"|null}            binary32 round-to-nearest-even; null = ±inf
+  * `f32s`  {vs:["num/den"…]}        → {f32s:["num/den"|null…]}        the same for a batch
+  * `ffc`   {m, offset, name, vars:[[name, value|null]…], default:[[name,value]…],
+             ops:[["add",key,ksize,[[name,value]…]] | ["block"] | ["set",name,value|null]],
+             wire: null | {default:[name…], configs:[[key,[name…]]…]}}
+            → {new: null|error}                                       when the constructor raises, else
+              {new:null, raised:[[i,error]…], state:{m,offset,name,linked,vars,default,configs,blocked},
+               overflow:bool, enc:{name,offset,block,default,configs}|null, dec:{ok:state}|{err:error}|null,
+               configure:[[key, null|error]…]}
+            `FFConfigurator`: `vars` is the controlled circuit reduced to its variables at construction time,
+            `set` is `Parameter.set_value` on a shared variable afterwards; a call that raises is skipped;
+            `enc` has every value after `f32` (null when one overflows: outside the model); `dec` is what the
+            reader does with that message; `configure` says for every mapped state whether `configure` raises.
+            errors: "ValueError:count", "NameError:<n>", "KeyError:<n>", "ValueError:size", "codec"
+  * `ffcp_any` {m, offset, name, default:[id,size], ops:[["add",key,[id,size]]|["block"]], wire:[key…]|null}
+            → as `ffcp` of `Driver/C15.lean` plus {true_max, inv, dec_max, second_eq}: the true maximum of the
+              sizes, whether `Inv` holds, the maximal size of the rebuilt provider, and whether a second trip
+              returns the rebuilt provider.
+-/
+
+section
+open Lean PM.Proto PM.C15
+
+namespace C15FFVD
+
+def optJ (j : Json) (f : Json → Except String α) : Except String (Option α) :=
+  if j.isNull then pure none else some <$> f j
+
+def optField (j : Json) (k : String) (f : Json → Except String α) : Except String (Option α) := do
+  optJ (← j.getObjVal? k) f
+
+def optToJ (f : α → Json) : Option α → Json
+  | none => Json.null
+  | some a => f a
+
+def listJ (f : α → Json) (l : List α) : Json := Json.arr (l.map f).toArray
+
+def listOf (j : Json) (f : Json → Except String α) : Except String (List α) := do
+  (← j.getArr?).toList.mapM f
+
+def intJ (i : Int) : Json := Json.num (Lean.JsonNumber.fromInt i)
+
+/-! ### 32-bit floats -/
+
+def f32J (v : Rat) : Json := optToJ ratToJson (F32.f32 v)
+
+/-! ### `FFConfigurator` -/
+
+abbrev Key := String × Nat
+abbrev Ctrl := FFC.VarList Rat
+abbrev Cf := FFC.Cfgr Key Ctrl Rat
+
+def errS : FFC.Err → String
+  | .count => "ValueError:count"
+  | .name n => s!"NameError:{n}"
+  | .key n => s!"KeyError:{n}"
+  | .size => "ValueError:size"
+  | .codec => "codec"
+
+def tableOf (j : Json) : Except String (FFC.Table Rat) :=
+  listOf j fun e => match e with
+    | .arr #[.str n, v] => do pure (n, ← ratOfJson v)
+    | _ => throw "bad table entry"
+
+def tableJ (t : FFC.Table Rat) : Json := listJ (fun (e : String × Rat) => Json.arr #[(e.1 : String), ratToJson e.2]) t
+
+def varsOf (j : Json) : Except String Ctrl :=
+  listOf j fun e => match e with
+    | .arr #[.str n, v] => do pure (n, ← optJ v ratOfJson)
+    | _ => throw "bad variable"
+
+def varsJ (c : Ctrl) : Json :=
+  listJ (fun (e : String × Option Rat) => Json.arr #[(e.1 : String), optToJ ratToJson e.2]) c
+
+inductive COp where
+  | op (o : FFC.Op Key Rat)
+  | set (n : String) (v : Option Rat)
+
+def copOf (j : Json) : Except String COp :=
+  match j with
+  | .arr #[.str "block"] => pure (.op .block)
+  | .arr #[.str "add", .str k, sz, t] => do pure (.op (.add (k, ← sz.getNat?) (← tableOf t)))
+  | .arr #[.str "set", .str n, v] => do pure (.set n (← optJ v ratOfJson))
+  | _ => throw "bad configurator call"
+
+/-- a history in which a call that raises is caught and skipped -/
+def runSkipC (x : Cf) : List COp → Nat → List (Nat × FFC.Err) → Cf × List (Nat × FFC.Err)
+  | [], _, bad => (x, bad.reverse)
+  | .set n v :: t, i, bad => runSkipC { x with ctrl := FFC.setValue n v x.ctrl } t (i + 1) bad
+  | .op o :: t, i, bad =>
+    match FFC.step Prod.snd x o with
+    | .ok x' => runSkipC x' t (i + 1) bad
+    | .error e => runSkipC x t (i + 1) ((i, e) :: bad)
+
+def cfJ (x : Cf) : Json :=
+  Json.mkObj [("m", x.m), ("offset", intJ x.offset), ("name", x.name),
+    ("linked", listJ (fun (s : String) => (s : Json)) x.linked), ("vars", varsJ x.ctrl),
+    ("default", tableJ x.defaultConfig),
+    ("configs", listJ (fun (e : Key × FFC.Table Rat) => Json.arr #[(e.1.1 : String), tableJ e.2]) x.configs),
+    ("blocked", x.blocked)]
+
+/-- the table `t` with its entries in the order `ns` of names -/
+def orderTable (t : FFC.Table Rat) (ns : List String) : Except String (FFC.Table Rat) :=
+  if ns.length != t.length then throw "wire order is not a permutation of the names" else
+  ns.mapM fun n => match t.find? (·.1 == n) with
+    | some e => pure e
+    | none => throw "wire order names an unknown variable"
+
+def tableOverflows (t : FFC.Table Rat) : Bool := t.any fun e => (F32.f32 e.2).isNone
+
+def handle (j : Json) : Except String Json := do
+  let op ← strOf j "op"
+  match op with
+  | "f32" => pure (Json.mkObj [("f32", f32J (← ratOfJson (← j.getObjVal? "v")))])
+  | "f32s" =>
+    let vs ← listOf (← j.getObjVal? "vs") ratOfJson
+    pure (Json.mkObj [("f32s", listJ f32J vs)])
+  | "ffc" =>
+    let c0 ← varsOf (← j.getObjVal? "vars")
+    let d ← tableOf (← j.getObjVal? "default")
+    let ops ← listOf (← j.getObjVal? "ops") copOf
+    match FFC.Cfgr.new (κ := Key) FFC.varCtl (← natOf j "m") (← intOf j "offset") (← strOf j "name") c0 d with
+    | .error e => pure (Json.mkObj [("new", errS e)])
+    | .ok x0 =>
+      let (x, bad) := runSkipC x0 ops 0 []
+      let wireJ ← j.getObjVal? "wire"
+      let (wd, wc) ← if wireJ.isNull then pure (x.defaultConfig, x.configs) else do
+        let wd ← orderTable x.defaultConfig (← listOf (← wireJ.getObjVal? "default") (·.getStr?))
+        let wks ← listOf (← wireJ.getObjVal? "configs") fun e => match e with
+          | .arr #[.str k, ns] => do pure (k, ← listOf ns (·.getStr?))
+          | _ => throw "bad wire entry"
+        if wks.length != x.configs.length then throw "wire order is not a permutation of the keys"
+        let wc ← wks.mapM fun (k, ns) => match x.configs.find? (·.1.1 == k) with
+          | some e => do pure (e.1, ← orderTable e.2 ns)
+          | none => throw "wire order names an unknown key"
+        pure (wd, wc)
+      let overflow := tableOverflows x.defaultConfig || x.configs.any (fun e => tableOverflows e.2)
+      let w := FFC.encCfgr (δ := Ctrl) id F32.f32D x wd wc
+      let encJ := Json.mkObj [("name", w.name), ("offset", intJ w.offset), ("block", w.block),
+        ("default", tableJ w.defaultConfig),
+        ("configs", listJ (fun (e : Key × FFC.Table Rat) => Json.arr #[(e.1.1 : String), tableJ e.2]) w.configs)]
+      let decJ := match FFC.decCfgr FFC.varCtl some Prod.snd x.m w with
+        | .ok y => Json.mkObj [("ok", cfJ y)]
+        | .error e => Json.mkObj [("err", errS e)]
+      let confJ := listJ (fun (e : Key × FFC.Table Rat) =>
+        Json.arr #[(e.1.1 : String), match FFC.configureOk FFC.varCtl x e.1 with
+          | .ok _ => Json.null
+          | .error e => (errS e : Json)]) x.configs
+      pure (Json.mkObj [("new", Json.null),
+        ("raised", listJ (fun (e : Nat × FFC.Err) => Json.arr #[(e.1 : Nat), (errS e.2 : String)]) bad),
+        ("state", cfJ x), ("overflow", overflow),
+        ("enc", if overflow then Json.null else encJ), ("dec", if overflow then Json.null else decJ),
+        ("configure", confJ)])
+  | "ffcp_any" =>
+    let payOf (j : Json) : Except String (Nat × Nat) :=
+      match j with
+      | .arr #[a, b] => do pure (← a.getNat?, ← b.getNat?)
+      | _ => throw "bad payload"
+    let payJ (c : Nat × Nat) : Json := .arr #[(c.1 : Nat), (c.2 : Nat)]
+    let entJ (e : String × (Nat × Nat)) : Json := Json.arr #[(e.1 : String), (e.2.1 : Nat), (e.2.2 : Nat)]
+    let provJ (p : FF.Prov String (Nat × Nat)) : Json :=
+      Json.mkObj [("m", p.m), ("offset", intJ p.offset), ("name", p.name), ("default", payJ p.default),
+        ("max", p.maxSize), ("blocked", p.blocked), ("map", listJ entJ p.map)]
+    let d ← payOf (← j.getObjVal? "default")
+    let ops ← listOf (← j.getObjVal? "ops") fun o => match o with
+      | .arr #[.str "block"] => pure (FF.Op.block : FF.Op String (Nat × Nat))
+      | .arr #[.str "add", .str k, c] => do pure (.add k (← payOf c))
+      | _ => throw "bad provider call"
+    let p0 : FF.Prov String (Nat × Nat) :=
+      FF.Prov.new Prod.snd (← natOf j "m") (← intOf j "offset") (← strOf j "name") d
+    -- a call that raises is skipped
+    let rec go (p : FF.Prov String (Nat × Nat)) (l : List (FF.Op String (Nat × Nat))) (i : Nat) (bad : List Nat) :
+        FF.Prov String (Nat × Nat) × List Nat :=
+      match l with
+      | [] => (p, bad.reverse)
+      | o :: t => match FF.step Prod.snd p o with
+        | some p' => go p' t (i + 1) bad
+        | none => go p t (i + 1) (i :: bad)
+    let (p, bad) := go p0 ops 0 []
+    let wireKeys ← optField j "wire" (fun w => listOf w (·.getStr?))
+    let wire ← match wireKeys with
+      | none => pure p.map
+      | some ks =>
+        if ks.length != p.map.length then throw "wire order is not a permutation of the keys" else
+        ks.mapM fun k => match p.map.find? (·.1 == k) with
+          | some e => pure e
+          | none => throw "wire order names an unknown key"
+    let w := FF.encProv id p wire
+    let encJ := Json.mkObj [("name", w.name), ("offset", intJ w.offset), ("block", w.block),
+      ("default", payJ w.default), ("configs", listJ entJ w.configs)]
+    let tm := FF.trueMax Prod.snd p.default p.map
+    let inv : Bool := decide (p.default.2 ≤ p.maxSize) && p.map.all (fun e => decide (e.2.2 ≤ p.maxSize)) &&
+      (FF.keys p.map).eraseDups.length == p.map.length
+    let dec := FF.decProv some Prod.snd false p.m w
+    let second : Option Bool := dec.map fun q =>
+      match FF.decProv some Prod.snd false q.m (FF.encProv id q q.map) with
+      | some r => r.m == q.m && r.offset == q.offset && r.name == q.name && r.default == q.default &&
+          r.maxSize == q.maxSize && r.blocked == q.blocked && r.map == q.map
+      | none => false
+    pure (Json.mkObj [("raised", listJ (fun (n : Nat) => (n : Json)) bad), ("state", provJ p), ("true_max", tm),
+      ("inv", inv), ("enc", encJ), ("dec", optToJ provJ dec), ("dec_max", optToJ (fun q => (q.maxSize : Json)) dec),
+      ("second_eq", optToJ (fun (b : Bool) => (b : Json)) second),
+      ("dec_flag_first", optToJ provJ (FF.decProv some Prod.snd true p.m w))])
+  | _ => throw s!"unknown op {op}"
+
+def handleJ (j : Json) : Json :=
+  match handle j with
+  | .ok r => r
+  | .error e => errJson e
+
+end C15FFVD
+end
 
 open Lean PM.Proto PM.C15
 
@@ -429,9 +906,103 @@ def isGood (p : FProv) : Bool :=
   let sizes := p.default.2 :: p.map.map (·.2.2)
   sizes.all (· ≤ p.maxSize) && sizes.any (· == p.maxSize) && (FF.keys p.map).eraseDups.length == p.map.length
 
+/-! ### text formats -/
+
+open PM.C15.Txt in
+def annotOf (j : Json) : Except String Annot := do
+  listOf j fun p => match p with
+    | .arr #[t, v] => do pure (txt (← t.getStr?), txt (← v.getStr?))
+    | _ => throw "bad annotation entry"
+
+open PM.C15.Txt in
+def modeOf (j : Json) : Except String Txt.Mode := do
+  let gs ← listOf (← j.getObjVal? "g") fun g => match g with
+    | .arr #[n, a] => do pure (⟨← n.getNat?, ← annotOf a⟩ : Txt.Group)
+    | _ => throw "bad group"
+  pure ⟨gs, ← natOf j "p"⟩
+
+def stateOf (j : Json) : Except String Txt.FState := listOf j modeOf
+
+def stateJ (s : Txt.FState) : Json :=
+  listJ (fun (m : Txt.Mode) => Json.mkObj [
+    ("g", listJ (fun (g : Txt.Group) => Json.arr #[(g.count : Nat),
+      listJ (fun (tv : Text × Text) => Json.arr #[(str tv.1 : String), (str tv.2 : String)]) g.annot]) m.groups),
+    ("p", m.plain)]) s
+
+def termOf (j : Json) : Except String Txt.Term :=
+  match j with
+  | .arr #[a, b, s] => do pure (← ratOfJson a, ← ratOfJson b, ← stateOf s)
+  | _ => throw "bad term"
+
+def termJ (t : Txt.Term) : Json := Json.arr #[ratToJson t.1, ratToJson t.2.1, stateJ t.2.2]
+
+def pairOf {α β : Type} (f : Json → Except String α) (g : Json → Except String β) (j : Json) : Except String (α × β) :=
+  match j with
+  | .arr #[a, b] => do pure (← f a, ← g b)
+  | _ => throw "bad pair"
+
+def pairJ {α β : Type} (f : α → Json) (g : β → Json) (p : α × β) : Json := Json.arr #[f p.1, g p.2]
+
+def natJ (n : Nat) : Json := n
+
+def nodupB [DecidableEq α] (l : List α) : Bool := l.eraseDups.length == l.length
+
+def txtOp (kind : String) (obj : Json) : Except String Json := do
+  let out (wf : Bool) (t : Text) (dec : Json) : Json := Json.mkObj [("wf", wf), ("text", str t), ("dec", dec)]
+  match kind with
+  | "state" =>
+    let s ← stateOf obj
+    let t := Txt.encodeState s
+    pure (out (Txt.FState.WF s) t (optToJ stateJ (Txt.decodeState t)))
+  | "num" =>
+    let v ← ratOfJson obj
+    let t := Txt.renderNum (Txt.gnumOf v)
+    pure (out true t (optToJ ratToJson (Txt.parseNum t)))
+  | "bsd" =>
+    let d ← listOf obj (pairOf stateOf ratOfJson)
+    let t := Txt.encodeBSD d
+    pure (out (d.all (fun e => Txt.FState.WF e.1) && nodupB (d.map Prod.fst) && Txt.uniform (d.map (·.1.length))) t
+      (optToJ (listJ (pairJ stateJ ratToJson)) (Txt.decodeBSD t)))
+  | "bsc" =>
+    let d ← listOf obj (pairOf stateOf (·.getNat?))
+    let t := Txt.encodeBSC d
+    pure (out (d.all (fun e => Txt.FState.WF e.1) && nodupB (d.map Prod.fst)) t
+      (optToJ (listJ (pairJ stateJ natJ)) (Txt.decodeBSC t)))
+  | "bss" =>
+    let l ← listOf obj stateOf
+    let t := Txt.encodeBSS l
+    pure (out (l.all Txt.FState.WF) t (optToJ (listJ stateJ) (Txt.decodeBSS t)))
+  | "sv" =>
+    let sv ← listOf obj termOf
+    let t := Txt.encodeSV sv
+    pure (out (!sv.isEmpty && sv.all (fun t => Txt.FState.WF t.2.2) && Txt.uniform (sv.map (·.2.2.length))) t
+      (optToJ (listJ termJ) (Txt.decodeSV t)))
+  | "svd" =>
+    let d ← listOf obj (pairOf (fun j => listOf j termOf) ratOfJson)
+    let t := Txt.encodeSVD d
+    pure (out (d.all (fun e => !e.1.isEmpty && e.1.all (fun t => Txt.FState.WF t.2.2)
+          && Txt.uniform (e.1.map (·.2.2.length)))
+        && Txt.uniform (d.map (Txt.svModes ·.1)) && nodupB (d.map fun e => e.1.map Txt.roundTerm)) t
+      (optToJ (listJ (pairJ (listJ termJ) ratToJson)) (Txt.decodeSVD t)))
+  | k => throw s!"unknown text kind {k}"
+
+def decTxtOp (kind : String) (t : Text) : Except String Json := do
+  let out (dec : Json) : Json := Json.mkObj [("dec", dec)]
+  match kind with
+  | "state" => pure (out (optToJ stateJ (Txt.decodeState t)))
+  | "num" => pure (out (optToJ ratToJson (Txt.parseNum t)))
+  | "bsd" => pure (out (optToJ (listJ (pairJ stateJ ratToJson)) (Txt.decodeBSD t)))
+  | "bsc" => pure (out (optToJ (listJ (pairJ stateJ natJ)) (Txt.decodeBSC t)))
+  | "bss" => pure (out (optToJ (listJ stateJ) (Txt.decodeBSS t)))
+  | "sv" => pure (out (optToJ (listJ termJ) (Txt.decodeSV t)))
+  | "svd" => pure (out (optToJ (listJ (pairJ (listJ termJ) ratToJson)) (Txt.decodeSVD t)))
+  | k => throw s!"unknown text kind {k}"
+
 def handleE (j : Json) : Except String Json := do
   let op ← strOf j "op"
   match op with
+  | "txt" => txtOp (← strOf j "kind") (← j.getObjVal? "obj")
+  | "dectxt" => decTxtOp (← strOf j "kind") (txt (← strOf j "text"))
   | "circuit" =>
     let cfg ← cfgOf j
     let tbl ← evsOf j
@@ -526,6 +1097,9 @@ def handleE (j : Json) : Except String Json := do
     pure (Json.mkObj [("raised", listJ (fun (n : Nat) => (n : Json)) bad), ("state", provJ p), ("good", isGood p),
       ("enc", encJ), ("dec", optToJ provJ (FF.decProv some Prod.snd false p.m w)),
       ("dec_flag_first", optToJ provJ (FF.decProv some Prod.snd true p.m w))])
+  | "ps" | "psparse" | "pseval" => C15PSD.handle j
+  | "tree" | "treedec" => C15TreeD.handle j
+  | "f32" | "f32s" | "ffc" | "ffcp_any" => C15FFVD.handle j
   | _ => throw s!"unknown op {op}"
 
 def handle (j : Json) : Json :=
